@@ -502,7 +502,7 @@ func ComposeCrud(u *Universe, rng *rand.Rand, firstID int) []*Model {
 		}}
 		// a nullable foreign key: Delete compares it with a NULL guard
 		link.Fields = append(link.Fields, Field{Name: "Opt", Exported: true, TE: ref("OptId"), Guard: noGuard, Foreign: "Other", OnDelete: "SET NULL"})
-		if rng.Intn(3) == 0 {
+		if rng.Intn(3) == 0 || len(models) == 0 { // (always in the first model file)
 			link.Comments = append(link.Comments, "gomacro:SQL ADD UNIQUE(Par)")
 		}
 		// a table struct whose Go name is not exported is a table like any other
